@@ -1,34 +1,45 @@
 import CanopenModel.Bytes
 import CanopenModel.Pdo.Config
+import CanopenModel.Pdo.Collection
 import CanopenModel.Spec.StrictPdoDevice
 namespace Canopen.Driver.C09
 open Canopen Canopen.Pdo Canopen.Spec.StrictPdo
 
 /-! line protocol of the C09 correspondence run (see harness/props/c09.py) -/
 
-/-- the strict device behind the SDO client, with fault injection for the correspondence run:
+/-- a device behind the SDO client, with fault injection for the correspondence run:
     the `wk`-th download / `rk`-th upload of the whole operation is answered with an abort and
     has no effect -/
-structure Faulty where
-  dev : PdoDev
+structure FaultyOf (σ : Type) where
+  dev : σ
   nw : Nat
   nr : Nat
   wf : Option (Nat × Nat)
   rf : Option (Nat × Nat)
 
-def faultyDev : Dev Faulty where
+def faultyOf {σ} (D : Dev σ) : Dev (FaultyOf σ) where
   write s idx sub size v :=
     let s' := { s with nw := s.nw + 1 }
     match s.wf with
     | some (k, code) =>
       if s.nw + 1 = k then (s', some code)
-      else let r := write s.dev idx sub size v; ({ s' with dev := r.1 }, r.2)
-    | none => let r := write s.dev idx sub size v; ({ s' with dev := r.1 }, r.2)
+      else let r := D.write s.dev idx sub size v; ({ s' with dev := r.1 }, r.2)
+    | none => let r := D.write s.dev idx sub size v; ({ s' with dev := r.1 }, r.2)
   read s idx sub :=
     let s' := { s with nr := s.nr + 1 }
     match s.rf with
-    | some (k, code) => if s.nr + 1 = k then (s', .error code) else (s', read s.dev idx sub)
-    | none => (s', read s.dev idx sub)
+    | some (k, code) => if s.nr + 1 = k then (s', .error code)
+                        else let r := D.read s.dev idx sub; ({ s' with dev := r.1 }, r.2)
+    | none => let r := D.read s.dev idx sub; ({ s' with dev := r.1 }, r.2)
+
+/-- the strict device of one PDO (Spec/StrictPdoDevice.lean) -/
+def oneDev : Dev PdoDev where
+  write := write
+  read d idx sub := (d, read d idx sub)
+
+abbrev Faulty := FaultyOf PdoDev
+
+def faultyDev : Dev Faulty := faultyOf oneDev
 
 /-! parsing -/
 
@@ -160,6 +171,147 @@ def parseKind (s : String) : Option (Bool × List OdEntry) :=
     else if k = "R" then (parseOdEntries es).map (false, ·) else none
   | _ => none
 
+/-! ### collection operations (`coll …`): several PDOs of one node -/
+
+structure MapIn where
+  isTx : Bool
+  n : Nat
+  how : String              -- u | a | d | o
+  attrs : Cfg
+  odcom : List OdEntry
+  mapIsArray : Bool
+  odmap : List OdEntry
+  devs : String
+  ents : String
+  mp : String
+
+def parseMapIn (tok : String) : Option MapIn :=
+  match tok.splitOn "~" with
+  | [dir, n, how, cfg, map, odcom, odmap, devs, ents, mp] =>
+    match (if dir = "T" then some true else if dir = "R" then some false else none),
+          n.toNat?, parseMap map, parseOdEntries odcom, parseKind odmap with
+    | some isTx, some n, some m, some oc, some (isArr, om) =>
+      if how ≠ "u" ∧ how ≠ "a" ∧ how ≠ "d" ∧ how ≠ "o" then none
+      else (parseCfg cfg m).map fun c =>
+        { isTx := isTx, n := n, how := how, attrs := c, odcom := oc, mapIsArray := isArr,
+          odmap := om, devs := devs, ents := ents, mp := mp }
+    | _, _, _, _, _ => none
+  | _ => none
+
+/-- the PDO parameter objects as objects of the node's dictionary (`_get_variable` finds them
+    like any other record / array) -/
+def pdoObjs (sl : PdoSlot) (mi : MapIn) : List (Nat × Option (List Nat)) :=
+  let msubs := mi.odmap.map (·.sub)
+  [(sl.comIdx, some (mi.odcom.map (·.sub))),
+   (sl.mapIdx, some (if mi.mapIsArray && msubs.contains 1 then msubs ++ List.range' 1 255 else msubs))]
+
+/-- a single map, or a whole collection -/
+inductive Call where
+  | one (isTx : Bool) (n : Nat)
+  | coll (c : Coll)
+
+def Call.sel : Call → List MapSt → List MapSt
+  | .one t n, all => (all.find? (MapSt.isKey t n)).toList
+  | .coll c, all => collMaps c all
+
+/-- `m`: every listed map on its own, in the order listed; `r`/`t`: `node.rpdo` / `node.tpdo`;
+    `c`: `node.rpdo` then `node.tpdo`; `p`: `node.pdo` -/
+def callsOf (x : String) (all : List MapSt) : Option (List Call) :=
+  if x = "m" then some (all.map fun m => .one m.isTx m.n)
+  else if x = "r" then some [.coll .rpdo]
+  else if x = "t" then some [.coll .tpdo]
+  else if x = "c" then some [.coll .rpdo, .coll .tpdo]
+  else if x = "p" then some [.coll .pdo]
+  else none
+
+def runCalls {σ} (f : List MapSt → List MapSt → M σ (List MapSt)) :
+    List Call → List MapSt → M σ (List MapSt)
+  | [], all => M.pure all
+  | c :: cs, all => M.bind (f all (c.sel all)) fun all' => runCalls f cs all'
+
+/-- the per-map preparation steps, in the order the maps are listed -/
+def prepare {σ} (D : Dev σ) : List MapIn → List MapSt → M σ (List MapSt)
+  | [], all => M.pure all
+  | mi :: rest, all =>
+    let me := (Call.one mi.isTx mi.n).sel all
+    let step : M σ (List MapSt) :=
+      if mi.how = "a" then M.pure (mergeMaps all (me.map fun m => { m with cfg := mi.attrs }))
+      else if mi.how = "d" then readMaps D .live all me
+      else if mi.how = "o" then readMaps D .od all me
+      else M.pure all
+    M.bind step fun all' => prepare D rest all'
+
+/-- `-`, or `d`/`o` (live / dictionary) followed by the collection `r`/`t`/`c`/`p` -/
+def parsePre (pre : String) : Option (Option (Src × String)) :=
+  if pre = "-" then some none
+  else if pre = "dr" then some (some (.live, "r")) else if pre = "dt" then some (some (.live, "t"))
+  else if pre = "dc" then some (some (.live, "c")) else if pre = "dp" then some (some (.live, "p"))
+  else if pre = "or" then some (some (.od, "r")) else if pre = "ot" then some (some (.od, "t"))
+  else if pre = "oc" then some (some (.od, "c")) else if pre = "op" then some (some (.od, "p"))
+  else none
+
+def showMaps (l : List MapSt) : String :=
+  "|".intercalate (l.map fun m =>
+    (if m.isTx then "T" else "R") ++ s!"{m.n}:{showCfg m.cfg}:{showSubs m.subs}")
+
+def distinctKeys : List MapIn → Bool
+  | [] => true
+  | m :: rest => !(rest.any fun x => x.isTx == m.isTx && x.n == m.n) && distinctKeys rest
+
+def collRun (nodeId : Nat) (pre save rd : String) (objsA objsB : List (Nat × Option (List Nat)))
+    (wf rf : Option (Nat × Nat)) (ins : List MapIn) : String :=
+  if !distinctKeys ins then "bad-op" else
+  match ins.mapM fun mi => (slot mi.isTx mi.n nodeId).map fun sl => (mi, sl) with
+  | none => "no-slot"
+  | some withSlots =>
+    match withSlots.mapM fun (mi, sl) => parseDev mi.devs mi.ents mi.mp sl.comIdx sl.mapIdx with
+    | none => "bad-op"
+    | some devs =>
+      let pobjs := (withSlots.map fun (mi, sl) => pdoObjs sl mi).flatten
+      let mk (objs : List (Nat × Option (List Nat))) : List MapSt :=
+        withSlots.map fun (mi, sl) =>
+          { isTx := mi.isTx, n := mi.n, cfg := Cfg.fresh, subs := [],
+            od := { comIdx := sl.comIdx, mapIdx := sl.mapIdx, com := mi.odcom, map := mi.odmap,
+                    mapIsArray := mi.mapIsArray, objs := pobjs ++ objs, curtis := false } }
+      let D := faultyOf multiDev
+      let preM (all : List MapSt) : Option (M (FaultyOf (List PdoDev)) (List MapSt)) :=
+        match parsePre pre with
+        | some none => some (M.pure all)
+        | some (some (src, x)) =>
+          (callsOf x all).map fun calls => runCalls (readMaps D src) calls all
+        | none => none
+      let saveM (all : List MapSt) : Option (M (FaultyOf (List PdoDev)) (List MapSt)) :=
+        if save = "l" then   -- `RemoteNode.load_configuration`
+          some (M.bind (runCalls (readMaps D .od) [.coll .pdo] all) fun a =>
+                runCalls (saveMaps D) [.coll .pdo] a)
+        else (callsOf save all).map fun calls => runCalls (saveMaps D) calls all
+      let allA := mk objsA
+      let allB := mk objsB
+      match preM allA, callsOf rd allB with
+      | some pm, some callsB =>
+        -- `callsOf` does not look at the attributes, so the calls can be fixed up front
+        match saveM allA with
+        | none => "bad-op"
+        | some _ =>
+          let phaseA : M (FaultyOf (List PdoDev)) (List MapSt) :=
+            M.bind pm fun a1 => M.bind (prepare D ins a1) fun a2 =>
+              match saveM a2 with
+              | some m => m
+              | none => M.pure a2
+          let st0 : Run (FaultyOf (List PdoDev)) :=
+            { dev := { dev := devs, nw := 0, nr := 0, wf := wf, rf := rf }, log := [] }
+          let (st1, ra) := phaseA st0
+          let aTxt := match ra with
+            | .ok ms => s!"A=ok mapsA={showMaps ms}"
+            | .error e => s!"A={showErr e} mapsA=-"
+          let (st2, rb) := runCalls (readMaps D .live) callsB allB { dev := st1.dev, log := [] }
+          let bTxt := match rb with
+            | .ok ms => s!"B=ok mapsB={showMaps ms}"
+            | .error e => s!"B={showErr e} mapsB=-"
+          s!"{aTxt} log={showLog st1.log} dev={"|".intercalate (st1.dev.dev.map showDevImg)} " ++
+          s!"{bTxt} logB={showLog st2.log}"
+      | _, _ => "bad-op"
+
 def step (args : List String) : String :=
   match args with
   | ["run", dir, n, nid, src, cur, cfg, map, odcom, odmap, objsA, objsB, dev, ents, mp, wf, rf] =>
@@ -173,6 +325,12 @@ def step (args : List String) : String :=
         | some c => run isTx n nid src cur c oc isArr om oa ob dev ents mp wf rf
         | none => "bad-op"
     | _, _, _, _, _, _, _, _, _, _, _ => "bad-op"
+  | "coll" :: nid :: pre :: save :: rd :: objsA :: objsB :: wf :: rf :: maps =>
+    match nid.toNat?, parseObjs objsA, parseObjs objsB, parseFault wf, parseFault rf,
+          maps.mapM parseMapIn with
+    | some nid, some oa, some ob, some wf, some rf, some ins =>
+      if ins.isEmpty then "bad-op" else collRun nid pre save rd oa ob wf rf ins
+    | _, _, _, _, _, _ => "bad-op"
   | _ => "bad-op"
 
 end Canopen.Driver.C09
